@@ -23,6 +23,23 @@ func (p *zzProbe) Gxt(id int64) interface{}           { zzverif.Fail("off-list-m
 func (p *zzProbe) Sxt(k string, v interface{}) error  { zzverif.Fail("off-list-method-invoked Sxt"); return nil }
 func (p *zzProbe) Exec(q string) error                { zzverif.Fail("off-list-method-invoked Exec"); return nil }
 
+// methods whose standing is read from the allow-list at the moment they run
+func zzInvoked(name string) {
+	if !interpreter.ZZAllowedExact(name) {
+		zzverif.Fail("off-list-method-invoked " + name)
+	}
+}
+func (p *zzProbe) Close() error                        { zzInvoked("Close"); return nil }
+func (p *zzProbe) Query(q string) (interface{}, error) { zzInvoked("Query"); return nil, nil }
+func (p *zzProbe) Raw(q string) interface{}            { zzInvoked("Raw"); return nil }
+func (p *zzProbe) Begin() error                        { zzInvoked("Begin"); return nil }
+func (p *zzProbe) Drop(t string) error                 { zzInvoked("Drop"); return nil }
+func (p *zzProbe) Ping() string                        { zzInvoked("Ping"); p.calls++; return "pong" }
+
+// a variadic method with fixed leading parameters (the shape of redis LPush)
+func (p *zzProbe) LPush(key string, vals ...interface{}) int64 { p.calls++; return int64(len(vals)) }
+func (p *zzProbe) HSet(key, field string, more ...interface{}) int64 { p.calls++; return 1 }
+
 // bytes that spell the probe's method names in any case, plus the UTF-8 bytes
 // of U+212A (Kelvin sign, which case-folds to k) and U+017F (long s -> s)
 const zzNameAlphabet = "gGeEtTsSzZaApPxX\xe2\x84\xaa\xc5\xbf"
@@ -75,9 +92,41 @@ func zzAllowListForms(n int) {
 
 func VerifC12_AllowListForms3() { zzAllowListForms(3) }
 
+// O1c: names that are NOT granted (and their case variants), through every call form
+var zzNamedSpellings = []string{"close", "Close", "CLOSE", "cLoSe", "query", "Query", "QUERY", "raw", "Raw", "begin", "BEGIN", "drop", "Drop", "exec", "EXEC", "ping", "PING", "zap"}
+
+func VerifC12_NamedOffList() {
+	name := zzNamedSpellings[zzverif.Choice("name", len(zzNamedSpellings))]
+	p := &zzProbe{}
+	in := interpreter.NewInterpreter()
+	env := interpreter.NewEnvironment()
+	env.Define("p", p)
+	env.Define("o", map[string]interface{}{"inner": p})
+	arg := ast.LiteralExpr{Value: ast.StringLiteral{Value: "x"}}
+	switch zzverif.Choice("form", 7) {
+	case 0:
+		in.EvaluateExpression(ast.FunctionCallExpr{Name: "p." + name, Args: []ast.Expr{arg}}, env)
+	case 1:
+		in.EvaluateExpression(ast.FunctionCallExpr{Name: "p." + name}, env)
+	case 2:
+		in.EvaluateExpression(ast.FunctionCallExpr{Name: name, Args: []ast.Expr{ast.VariableExpr{Name: "p"}, arg}}, env)
+	case 3:
+		in.EvaluateExpression(ast.FunctionCallExpr{Name: name, Args: []ast.Expr{ast.VariableExpr{Name: "p"}}}, env)
+	case 4:
+		in.EvaluateExpression(ast.FunctionCallExpr{Name: "o.inner." + name}, env)
+	case 5:
+		in.EvaluateExpression(ast.FunctionCallExpr{Name: "p.t." + name, Args: []ast.Expr{arg}}, env)
+	default:
+		interpreter.HasMethod(p, name)
+		interpreter.CallMethod(p, name)
+		interpreter.CallMethod(p, name, "x")
+	}
+	zzverif.Reach("named")
+}
+
 // O2: no argument count, null or wrongly typed argument crashes a provider call.
 func VerifC12_Arguments() {
-	methods := []string{"Get", "Set", "All", "Del", "Table"}
+	methods := []string{"Get", "Set", "All", "Del", "Table", "LPush", "HSet", "lpush", "hset"}
 	m := methods[zzverif.Choice("method", len(methods))]
 	n := zzverif.Choice("nargs", 4)
 	var args []interface{}
